@@ -367,14 +367,15 @@ theorem facing_iff (n k : Nat) (p q Q : HashParts) (f : MW) (hn : 1 ≤ n) (hn2 
     obtain ⟨P, hP, hPa⟩ := facing_sound n k p q Q f hn hn2 hQ hq hf hs
     exact ⟨P, neighbourParts_valid _ Q P f hM hn2 hQ hP, hPa, neighbour_touch _ Q P f hM hn2 hQ hP⟩
 
-/-! ## `delta_depth = 0` is excluded for a reason -/
+/-! ## `delta_depth = 0` -/
 
-/-- the hypothesis `1 ≤ dd` of all the theorems cannot be dropped: with `delta_depth = 0` the corner masks
-    `x_mask(0)`, `y_mask(0)`, `xy_mask(0)` shift by 64 bits: `external_edge(depth 1, cell 10, 0)` panics in a debug build
-    and returns cells that are not the neighbours `[25, 8, 9, 27, 11, 5, 7]` in a release build -/
-example : externalEdge { debug := true, bmi := false } 1 10 0 false = none ∧
-    externalEdge { debug := false, bmi := false } 1 10 0 false =
-      some [18446744073709551615, 8, 12297829382473034411, 27, 11, 5, 6148914691236517207] ∧
+/-- with `delta_depth = 0` the external edge is the list of the neighbours (in both profiles), since the repair
+    `fix: x_mask, y_mask and xy_mask at depth 0`; before it the masks `x_mask(0)`, `y_mask(0)`, `xy_mask(0)` shifted by 64
+    bits: `external_edge(depth 1, cell 10, 0)` panicked in a debug build and returned
+    `[18446744073709551615, 8, 12297829382473034411, 27, 11, 5, 6148914691236517207]` in a release build (found by this
+    proof development: the hypothesis `1 ≤ dd` could not be dropped) -/
+example : externalEdge { debug := true, bmi := false } 1 10 0 false = some [25, 8, 9, 27, 11, 5, 7] ∧
+    externalEdge { debug := false, bmi := false } 1 10 0 false = some [25, 8, 9, 27, 11, 5, 7] ∧
     (nbList 1 10 false).map (·.2) = [25, 8, 9, 27, 11, 5, 7] := by decide +kernel
 
 /-! ## tests by kernel evaluation -/
